@@ -222,7 +222,7 @@ func bubble(c *explore.Ctx, u unit, horizon int, root string) (out outcome) {
 	}
 	initial := u.Initial
 	dataFirst := u.DataFirst
-	nBlocks := len(u.Chain) - 1 // the last block is committed while submission is in progress
+	nBlocks := len(u.Chain) // genesis block + all sequenced blocks but the last, which is committed while submission is in progress
 	p := world.Params{InitialHeight: initial, DABlockTime: daBlock, MempoolTTL: 2, GenesisTime: t0.Add(-time.Hour), RootDir: root}
 	env := world.NewEnv()
 	clock := t0.Add(-time.Hour)
@@ -236,6 +236,9 @@ func bubble(c *explore.Ctx, u unit, horizon int, root string) (out outcome) {
 			out.engine = fmt.Sprintf("the sequencing layer was asked for batch %d of a chain of %d blocks", asked+1, len(u.Chain))
 		}
 		asked++
+		if os.Getenv("C06_DEV_PRINT") != "" { // DEV-ONLY
+			fmt.Println("DEV seq.next", asked, k, clock)
+		}
 		if k == 0 {
 			return world.SeqAnswer{Kind: "batch", Time: clock}
 		}
@@ -429,6 +432,10 @@ func bubble(c *explore.Ctx, u unit, horizon int, root string) (out outcome) {
 			if err, _ := n.Produce(context.Background()); err != nil {
 				ev("produce-error:%v", err)
 			}
+			if os.Getenv("C06_DEV_PRINT") != "" { // DEV-ONLY
+				hh, bb := committed()
+				fmt.Println("DEV produced", hh, len(bb), len(bb[len(bb)-1].D.Txs))
+			}
 		}
 		armed = was
 	}
@@ -491,6 +498,9 @@ func bubble(c *explore.Ctx, u unit, horizon int, root string) (out outcome) {
 			startLoops()
 		}
 	}
+	// a cancelled loop may win one more select round against ctx.Done() (Go picks at random); when the run ends inside
+	// the fault phase (a violation was found) that round must not consume decision points
+	armed = false
 	cancel()
 	synctest.Wait()
 	if fail == nil {
@@ -582,6 +592,9 @@ func bubble(c *explore.Ctx, u unit, horizon int, root string) (out outcome) {
 		fmt.Fprintf(&sb, "h=%d H=%v D=%v submits=%d", h, firstSeenH, firstSeenD, len(env.DA.SubmitLog()))
 		out.sig = sb.String()
 	}
+	if fail == nil && asked != len(u.Chain) && out.engine == "" {
+		out.engine = fmt.Sprintf("%d of the chain's %d sequenced blocks were produced", asked, len(u.Chain))
+	}
 	out.fail, out.tags = fail, tags
 	return
 }
@@ -611,14 +624,28 @@ func claimer(r *vf.Run) (claim func(j int) bool, dir string, first bool) {
 	return
 }
 
+// part is one slice of the exploration: chains of Seq sequenced blocks, optionally with one clean restart, and the
+// deviation budgets below it. (The block at the initial height is the genesis block that the manager stores at
+// start-up: it is always empty and no batch is requested for it; the chain patterns describe the blocks after it.)
+type part struct {
+	Name    string         `json:"name"`
+	Seq     int            `json:"sequenced_blocks"`
+	Restart bool           `json:"one_clean_restart"`
+	Budgets map[string]int `json:"budgets"`
+	Total   int            `json:"max_faults_plus_crashes,omitempty"` // 0 = no joint limit
+}
+
 // unitStat is what one unit's exploration measured; shards publish it next to the claim files so that the shard whose
 // coverage record carries the bounds (shard 0) can state totals over all shards.
 type unitStat struct {
 	Executions int64 `json:"executions"`
-	Restarts   int64 `json:"executions_with_clean_restart"`
 	MaxDepth   int64 `json:"max_depth"`
-	Repeats    int   `json:"repeats"`
 	Capped     bool  `json:"capped"`
+}
+
+type job struct {
+	u    unit
+	part int
 }
 
 func TestCheck(t *testing.T) {
@@ -626,27 +653,34 @@ func TestCheck(t *testing.T) {
 	if r.RunShards(16) { // bubble-heavy: one process per shard of the exploration
 		return
 	}
-	nBlocks := vf.Pick(r, 2, 3)
 	horizon := vf.Pick(r, 12, 16)
-	// part A: no clean restart; part B: one clean restart at any observation instant of the fault phase plus further
-	// deviations within a smaller budget (Total = maximal number of DA faults + crashes together, 0 = no joint limit)
-	budgetsA := vf.Pick(r, map[string]int{"da": 2, "crash": 1}, map[string]int{"da": 3, "crash": 2})
-	totalA := vf.Pick(r, 0, 0)
-	budgetsB := vf.Pick(r, map[string]int{"da": 1, "crash": 1}, map[string]int{"da": 2, "crash": 1})
-	totalB := vf.Pick(r, 1, 2)
-	if v := os.Getenv("C06_DEV_BUDGET"); v != "" { // DEV-ONLY da,crash,total
-		var a, b, c int
-		fmt.Sscanf(v, "%d,%d,%d", &a, &b, &c)
-		budgetsA, totalA = map[string]int{"da": a, "crash": b}, c
-		budgetsB, totalB = budgetsA, c
+	parts := vf.Pick(r,
+		[]part{
+			{Name: "faults", Seq: 2, Budgets: map[string]int{"da": 2, "crash": 1}},
+			{Name: "faults-longer-chains", Seq: 3, Budgets: map[string]int{"da": 2, "crash": 1}, Total: 2},
+			{Name: "clean-restart", Seq: 3, Restart: true, Budgets: map[string]int{"da": 1, "crash": 1}, Total: 1},
+		},
+		[]part{
+			{Name: "faults", Seq: 3, Budgets: map[string]int{"da": 3, "crash": 2}, Total: 3},
+			{Name: "faults-longer-chains", Seq: 4, Budgets: map[string]int{"da": 2, "crash": 1}},
+			{Name: "clean-restart", Seq: 3, Restart: true, Budgets: map[string]int{"da": 2, "crash": 1}, Total: 2},
+		})
+	if v := os.Getenv("C06_DEV_PARTS"); v != "" { // DEV-ONLY "seq,restart,da,crash,total;..."
+		parts = nil
+		for _, f := range strings.Split(v, ";") {
+			var sq, rs, a, b, c int
+			fmt.Sscanf(f, "%d,%d,%d,%d,%d", &sq, &rs, &a, &b, &c)
+			parts = append(parts, part{Name: f, Seq: sq, Restart: rs == 1, Budgets: map[string]int{"da": a, "crash": b}, Total: c})
+		}
 	}
 	r.Assume = []string{
 		"virtual time (testing/synctest): DA block time 1 s, mempool TTL 2 DA blocks; the two submission loops are started 1 ms apart (both orders explored) so that their timers never coincide",
 		"'accepted by the DA layer' = stored by the DA double (including stored-but-acknowledgement-lost)",
 		"liveness horizon: after the fault phase the DA accepts everything for horizon/2 DA blocks",
 		"crash points: before every Submit call and before every durable write made by the submission loops (cache files are not written at a crash; the next process finds those of the last clean stop, if any)",
-		"clean restart points: at most one per history, at any of the horizon/2 observation instants of the fault phase (one per DA block): loops cancelled, SaveCache, new process on the same store and cache directory",
-		"chain contents are enumerated up to renaming of transaction lists: a non-empty block carries one transaction; what is varied is which blocks are empty and which blocks carry byte-identical lists",
+		"clean restart: at most one per history, at any of the horizon/2 observation instants of the fault phase (one per DA block): loops cancelled, SaveCache, new process on the same store and cache directory",
+		"the block at the initial height is the genesis block the manager stores at start-up (always empty); all later blocks are made from the sequencing double's batches; all but the last are committed before submission starts, the last one two DA blocks into it",
+		"chain contents are enumerated up to renaming of transaction lists: a non-empty block carries one transaction; what is varied is which blocks are empty and which blocks carry byte-identical lists (equal data commitments / data-cache keys)",
 	}
 	if r.ReplayPath() != "" {
 		var h history
@@ -663,28 +697,55 @@ func TestCheck(t *testing.T) {
 		r.Finish(vf.Coverage{Evaluations: 1, DistinctNontrivial: 1})
 		return
 	}
-	// units: configuration × chain content, larger ones first (they are dealt out dynamically among the shards)
-	var units []unit
-	nChains, nRepeatChains := 0, 0
-	for _, ch := range chains(nBlocks + 1) {
-		nChains++
-		if (unit{Chain: ch}).repeats() > 0 {
-			nRepeatChains++
-		}
-		for _, initial := range []uint64{1, 3} {
-			for _, dataFirst := range []bool{false, true} {
-				for at := 0; at <= horizon/2; at++ {
-					units = append(units, unit{Initial: initial, DataFirst: dataFirst, Chain: ch, RestartAt: at})
+	// units: part × configuration × chain content (× restart instant); they are dealt out dynamically among the
+	// shard processes, larger ones first
+	var jobs []job
+	type partInfo struct {
+		part
+		Chains, RepeatChains, Adjacent, OverEmpty, OverOther, Units int
+	}
+	infos := make([]partInfo, len(parts))
+	for pi, pt := range parts {
+		infos[pi].part = pt
+		for _, ch := range chains(pt.Seq) {
+			u0 := unit{Chain: ch}
+			infos[pi].Chains++
+			if u0.repeats() > 0 {
+				infos[pi].RepeatChains++
+			}
+			if u0.adjacentRepeat() {
+				infos[pi].Adjacent++
+			}
+			oe, oo := u0.separatedRepeat()
+			if oe {
+				infos[pi].OverEmpty++
+			}
+			if oo {
+				infos[pi].OverOther++
+			}
+			for _, initial := range []uint64{1, 3} {
+				for _, dataFirst := range []bool{false, true} {
+					from, to := 0, 0
+					if pt.Restart {
+						from, to = 1, horizon/2
+					}
+					for at := from; at <= to; at++ {
+						jobs = append(jobs, job{unit{Initial: initial, DataFirst: dataFirst, Chain: ch, RestartAt: at}, pi})
+						infos[pi].Units++
+					}
 				}
 			}
 		}
 	}
-	sort.SliceStable(units, func(i, j int) bool {
-		if a, b := units[i].RestartAt == 0, units[j].RestartAt == 0; a != b {
-			return a
+	weight := func(j job) int { // rough size order only (any order is correct)
+		pt := parts[j.part]
+		w := pt.Budgets["da"] + pt.Budgets["crash"]
+		if pt.Total > 0 && pt.Total < w {
+			w = pt.Total
 		}
-		return units[i].nonEmpty() > units[j].nonEmpty()
-	})
+		return w*100 + len(j.u.Chain)*10 + j.u.nonEmpty()
+	}
+	sort.SliceStable(jobs, func(a, b int) bool { return weight(jobs[a]) > weight(jobs[b]) })
 	claim, shardDir, firstShard := claimer(r)
 	started := time.Now()
 	deadline := vf.Pick(r, 100*time.Second, 25*time.Minute)
@@ -693,9 +754,10 @@ func TestCheck(t *testing.T) {
 	}
 	var st explore.Stats
 	var caps []string
-	stats := make([]*unitStat, len(units))
+	stats := make([]*unitStat, len(jobs))
 	notStarted := 0
-	for j, u := range units {
+	for j, jb := range jobs {
+		u, pt := jb.u, parts[jb.part]
 		if f := os.Getenv("C06_DEV_UNIT"); f != "" && !strings.Contains(u.String()+"$", f) { // DEV-ONLY
 			continue
 		}
@@ -707,20 +769,13 @@ func TestCheck(t *testing.T) {
 		if !claim(j) {
 			continue
 		}
-		var execRestart int64
-		budgets, total := budgetsA, totalA
-		if u.RestartAt > 0 {
-			budgets, total = budgetsB, totalB
-		}
-		s := explore.Explore(explore.Config{Budgets: budgets, Total: total, Deadline: left}, func(c *explore.Ctx) {
+		s := explore.Explore(explore.Config{Budgets: pt.Budgets, Total: pt.Total, Deadline: left}, func(c *explore.Ctx) {
 			o := body(t, c, u, horizon)
 			if o.engine != "" {
-				r.EngineError(o.engine)
+				r.EngineError(fmt.Sprintf("%s: %s", u, o.engine))
 			}
-			for _, tg := range o.tags {
-				if tg == "clean-restart" {
-					atomic.AddInt64(&execRestart, 1)
-				}
+			if os.Getenv("C06_DEV_PRINT") != "" { // DEV-ONLY
+				fmt.Println("DEV", u, o.sig, o.events, o.fail)
 			}
 			if o.fail != nil {
 				r.Report(vf.Violation{Clause: o.fail.Clause, Tags: o.tags, Msg: fmt.Sprintf("%s\n unit: %s\n events: %v\n choices: %s", o.fail.Msg, u, o.events, c.String()), Cost: c.Cost() + u.repeats() + min(u.RestartAt, 1), History: history{u, c.Choices()}})
@@ -728,7 +783,7 @@ func TestCheck(t *testing.T) {
 				return
 			}
 			r.Outcome(o.sig)
-			if c.Cost() >= 2 && (u.repeats() > 0 || c.Cost() >= 3) {
+			if c.Cost() >= 1 && (u.repeats() > 0 || u.RestartAt > 0) || c.Cost() >= 3 {
 				r.Sample(map[string]any{"unit": u.String(), "events": o.events, "result": o.sig})
 			}
 		})
@@ -743,7 +798,7 @@ func TestCheck(t *testing.T) {
 		if s.MaxDepth > st.MaxDepth {
 			st.MaxDepth = s.MaxDepth
 		}
-		stats[j] = &unitStat{s.Executions, execRestart, s.MaxDepth, u.repeats(), s.Capped != ""}
+		stats[j] = &unitStat{s.Executions, s.MaxDepth, s.Capped != ""}
 		if shardDir != "" {
 			bz, _ := json.Marshal(stats[j])
 			tmp := filepath.Join(shardDir, fmt.Sprintf("c06-unit-%d.tmp", j))
@@ -753,20 +808,14 @@ func TestCheck(t *testing.T) {
 		}
 	}
 	if notStarted > 0 {
-		caps = append(caps, fmt.Sprintf("deadline %s reached: %d of %d units not started by this process", deadline, notStarted, len(units)))
+		caps = append(caps, fmt.Sprintf("deadline %s reached: %d of %d units not started by this process", deadline, notStarted, len(jobs)))
 	}
-	// totals over all shards (measured by whichever shard ran the unit). Shard 0 waits for the others' records; a
-	// record that does not arrive in time only makes the breakdown incomplete, never the verdict.
-	bounds := map[string]any{"blocks": nBlocks + 1, "chains": nChains, "chains_with_repeated_tx_list": nRepeatChains, "units_config_x_chain": len(units), "horizon_da_blocks": horizon,
-		"budgets_without_clean_restart": budgetsA, "budgets_with_one_clean_restart": budgetsB, "max_faults_plus_crashes_with_clean_restart": totalB,
-		"clean_restart_instants": horizon / 2, "max_decision_points": st.MaxDepth}
-	if totalA > 0 {
-		bounds["max_faults_plus_crashes_without_clean_restart"] = totalA
-	}
+	bounds := map[string]any{"horizon_da_blocks": horizon, "clean_restart_instants": horizon / 2, "units": len(jobs), "max_decision_points": st.MaxDepth}
+	// measured totals over all shards (by whichever shard ran the unit). Shard 0 — whose coverage record carries the
+	// bounds — waits for the others' records; a record that does not arrive only makes the breakdown incomplete.
 	if firstShard {
 		limit := time.Now().Add(deadline - time.Since(started) + 30*time.Second)
-		missing := 0
-		for j := range units {
+		for j := range jobs {
 			for stats[j] == nil && shardDir != "" {
 				if _, err := os.Stat(filepath.Join(shardDir, fmt.Sprintf("c06-unit-%d.claim", j))); err != nil {
 					break // nobody started this unit
@@ -783,34 +832,49 @@ func TestCheck(t *testing.T) {
 				}
 				time.Sleep(20 * time.Millisecond)
 			}
-			if stats[j] == nil || stats[j].Capped {
-				missing++
-			}
 		}
-		var all, onRepeat, withRestart, depth int64
-		for _, us := range stats {
-			if us == nil {
-				continue
+		var depth int64
+		var plist []map[string]any
+		for pi, inf := range infos {
+			var all, onRepeat int64
+			missing := 0
+			for j, jb := range jobs {
+				if jb.part != pi {
+					continue
+				}
+				us := stats[j]
+				if us == nil || us.Capped {
+					missing++
+				}
+				if us == nil {
+					continue
+				}
+				all += us.Executions
+				if jb.u.repeats() > 0 {
+					onRepeat += us.Executions
+				}
+				if us.MaxDepth > depth {
+					depth = us.MaxDepth
+				}
 			}
-			all += us.Executions
-			withRestart += us.Restarts
-			if us.Repeats > 0 {
-				onRepeat += us.Executions
+			m := map[string]any{"part": inf.Name, "blocks": inf.Seq + 1, "sequenced_blocks": inf.Seq, "one_clean_restart": inf.Restart, "budgets": inf.Budgets,
+				"chains": inf.Chains, "chains_with_repeated_tx_list": inf.RepeatChains, "chains_with_adjacent_repeat": inf.Adjacent,
+				"chains_with_repeat_across_empty_block": inf.OverEmpty, "chains_with_repeat_across_other_block": inf.OverOther,
+				"units": inf.Units, "executions": all, "executions_on_chains_with_repeated_tx_list": onRepeat}
+			if inf.Total > 0 {
+				m["max_faults_plus_crashes"] = inf.Total
 			}
-			if us.MaxDepth > depth {
-				depth = us.MaxDepth
+			if missing > 0 {
+				m["units_not_completed"] = missing
 			}
+			plist = append(plist, m)
 		}
 		bounds["max_decision_points"] = depth
-		breakdown := map[string]any{"executions": all, "executions_on_chains_with_repeated_tx_list": onRepeat, "executions_with_clean_restart": withRestart}
-		if missing > 0 {
-			breakdown["units_not_completed"] = missing
-		}
-		bounds["measured_breakdown_all_shards"] = breakdown
+		bounds["parts_measured_over_all_shards"] = plist
 	}
 	r.Finish(vf.Coverage{
 		Evaluations: st.Executions, DistinctNontrivial: int64(r.DistinctOutcomes()), States: st.Executions, Transitions: st.Points,
-		Rule:       "every chain content up to renaming of transaction lists (each block empty, a new list, or a list byte-identical to that of ANY earlier block: adjacent repeats, repeats separated by an empty or by another non-empty block, triple repeats; Bell(blocks+1) chains) × initial height {1,3} × loop start order × every sequence of DA answers (8-element menu per Submit call), crash points (before each Submit, before each durable write of the loops; cache lost) within the deviation budgets, without and with one clean restart (at any DA block of the fault phase; cache files saved and reloaded); the real submission loops run under virtual time; distinct = distinct (first-acceptance orders, number of Submit calls)",
+		Rule:       "per part (see bounds): every chain content up to renaming of transaction lists (after the always-empty genesis block each block is empty, carries a new list, or a list byte-identical to that of ANY earlier block: adjacent repeats, repeats across an empty block, repeats across another non-empty block, triple repeats; Bell(n+1) chains of n sequenced blocks) × initial height {1,3} × loop start order × every sequence of DA answers (8-element menu per Submit call) and crash points (before each Submit, before each durable write of the loops; caches lost) within the part's deviation budgets, without or with one clean restart (at any DA block of the fault phase; cache files saved and reloaded); the real submission loops run under virtual time; distinct = distinct (first-acceptance orders, number of Submit calls)",
 		Exhaustive: true, Caps: caps,
 		Bounds: bounds,
 	})
